@@ -39,6 +39,63 @@ def stage_input(run):
     run.notes["input_edges"] = len(edges)
 
 
+def detect_stage(run, count, what):
+    """Detection traces (hook events + answers + transparency + self-recognition) validated by TLC
+    against Trace_XtDetect (which extends XtDetect and XtInput)."""
+    mc = run_tlc("XtDetect.tla", "MC_XtDetect.cfg", workers=4)
+    check_vacuity(mc, ["StartTrial", "Look", "Verdict"])
+    run.add_mc(mc, "XtDetect: trial order, first match, only-source-errors, handle invariants after any detection run")
+    raw = os.path.join(WORK, "trace_%s_detect_%s.raw" % (run.pid, run.tier))
+    path = os.path.join(WORK, "trace_%s_detect_%s.ndjson" % (run.pid, run.tier))
+    summ = run_xtv(["record-detect", raw, count], timeout=3000)
+    run.add_harness(summ, "recorded: " + what)
+    common.sh(["python3", os.path.join(common.VERIF, "tools", "lib", "sidecond.py"), raw, path], check=True)
+    listed = sorted(k["key"] for k in common.known_findings() if k["property"] == run.pid)
+    env = {"XT_DEVS": ",".join(listed) or "none", "XT_RULES": run.pid}
+    cur = path
+    rejects = 0
+    while True:
+        r = common.validate_trace("Trace_XtDetect.tla", "Trace_XtDetect.cfg", cur, env=env, tag="XtDetect-%s" % run.pid)
+        for l in r["out"].splitlines():
+            if l.startswith('<<"DEVIATION"'):
+                d = l.split('"')[3]
+                hit = next((k for k in common.known_findings() if k["property"] == run.pid and k["key"] == d), None)
+                if hit and hit not in run.known_hits:
+                    run.known_hits.append(hit)
+        if r["violated"]:
+            run.violation("handle invariant %s violated during a recorded detection run" % r["violated"], {"kind": "xtdetect-trace", "tlc": r["out"][-3000:]})
+            break
+        if r["accepted"]:
+            break
+        rejects += 1
+        info = json.loads(common.tlc_printed(r["out"], "REJECTJSON")[0])
+        lines = open(cur).read().splitlines()
+        n = info["line"]
+        start = n
+        while start > 1 and '"ev":"input"' not in lines[start - 1]:
+            start -= 1
+        # the run = all records about this input id (several supply modes + comparisons)
+        first = json.loads(lines[start - 1]) if '"ev":"input"' in lines[start - 1] else {}
+        ident = first.get("id", "").split("/")[0]
+        grp_start = start
+        while grp_start > 1 and ident and ('"id":"%s' % ident) in lines[grp_start - 2]:
+            grp_start -= 1
+        grp_end = n
+        while grp_end < len(lines) and not ('"ev":"input"' in lines[grp_end] and ('"id":"%s' % ident) not in lines[grp_end]):
+            grp_end += 1
+        ctx = [json.loads(x) for x in lines[start - 1:n]][-12:]
+        prop = run.pid
+        run.violation("recorded detection run is not a behaviour of XtDetect: %s" % json.dumps(info["rec"])[:500],
+                      {"kind": "xtdetect-trace", "input": first, "rejected_record": info["rec"], "preceding_records": ctx})
+        if rejects >= 5:
+            break
+        nxt = path + ".cut%d" % rejects
+        with open(nxt, "w") as f:
+            f.write("\n".join(lines[:grp_start - 1] + lines[grp_end:]) + "\n")
+        cur = nxt
+    run.add_traces(summ["evaluations"], r, what)
+
+
 def c09(run):
     run.rule = ("XtInput: each case is one maximal path of handle operations (borrow / read(b) with the source returning k / "
                 "prefix(n) / into_input / into_cow / owned reads) over the TLC-exported transition relation, for every stream "
@@ -49,7 +106,16 @@ def c09(run):
         "byte values are irrelevant to the handle: the stream is 1,2,..,n",
     ]
     stage_input(run)
+    detect_stage(run, _q(run, 60, 1500), "detection under slice + 5 reader schedules + a read fault, for generated, mutated, truncated inputs and xt's own output; translate(None) vs translate(Some(answer))")
     run.exhaustive = True
+
+
+def c10(run):
+    run.rule = ("each case = xt's own output (JSON, YAML, MessagePack, TOML; one or several documents) for a generated collection-rooted document, fed back "
+                "with no source format from a slice and from readers; TLC requires the detected format to be the one written and translate(None) = translate(Some(F)) "
+                "(Trace_XtDetect!T_Self); for TOML only under the statement's side conditions, evaluated with independent readers (json.raw_decode, PyYAML compose)")
+    run.assumptions += ["collection-rooted documents of the common data model (C01 generators)"]
+    detect_stage(run, _q(run, 60, 3000), "self-recognition of xt output plus the full detection contract on the same inputs")
 
 
 def replay(pid, path):
